@@ -112,7 +112,7 @@ impl Prop for C14 {
         for p in ["left-end", "right-end", "interior-knot", "just-above-knot", "just-below-knot", "midpoint", "random"] {
             v.push(format!("point:{}", p));
         }
-        for s in ["repeated-interior-knot", "no-interior-knots", "m>=k", "m=k-1", "outside-support", "array-form", "python-layer", "dual-abscissa", "dual-abscissa:curved", "matrix-form", "scale:tiny-domain", "scale:huge-domain"] {
+        for s in ["repeated-interior-knot", "no-interior-knots", "m>=k", "m=k-1", "outside-support", "array-form", "python-layer", "python-layer:typed-evaluators", "dual-abscissa", "dual-abscissa:curved", "matrix-form", "scale:tiny-domain", "scale:huge-domain"] {
             v.push(s.to_string());
         }
         v
@@ -398,6 +398,44 @@ impl Prop for C14 {
                                 ctx.violation(&format!("C14|panic|python-layer|{}", short_loc(&loc)), json!({"k": k, "t": t, "i": i, "m": m, "message": msg}));
                             }
                             return;
+                        }
+                    }
+                }
+            }
+        }
+        // the Python spline object with a unit coefficient vector IS basis function i: its typed evaluators at a
+        // float abscissa and any derivative order give that basis function's derivative
+        {
+            use rateslib::dual::{Gradient1, Number};
+            let same = |a: f64, b: f64| a.to_bits() == b.to_bits() || a == b;
+            for i in [0usize, n / 2, n - 1] {
+                let mut c = vec![0.0; n];
+                c[i] = 1.0;
+                let py = rateslib::splines::PPSplineF64::verif_py_new(k, t.clone(), Some(c));
+                for (x, pcls) in pts.iter().take(5) {
+                    for m in 0..=k {
+                        let want = if m == 0 { bsplev_single_f64(x, i, &k, &t, None) } else { bspldnev_single_f64(x, i, &k, &t, m, None) };
+                        let got = guarded(|| (py.verif_py_ppdnev_single(Number::F64(*x), m).ok(), py.verif_py_ppdnev_single_dual(Number::F64(*x), m).ok().map(|d| d.real()), py.verif_py_ppdnev_single_dual2(Number::F64(*x), m).ok().map(|d| d.real())));
+                        ctx.eval(3);
+                        ctx.asserted(3);
+                        ctx.class("python-layer:typed-evaluators");
+                        match got {
+                            Caught::Ok((Some(a), Some(b), Some(c2))) if same(a, want) && same(b, want) && same(c2, want) => {}
+                            Caught::Ok(other) => {
+                                ctx.violation(
+                                    &format!("C14|python-layer|typed-evaluators|{}|m={}", pcls, m.min(3)),
+                                    json!({"case": case(*x, i, m), "ppdnev_single / ppdnev_single_dual / ppdnev_single_dual2 at a float abscissa": format!("{:?}", other), "core_single_point_form": want}),
+                                );
+                                return;
+                            }
+                            Caught::Panic { loc, msg } => {
+                                if is_harness_location(&loc) {
+                                    ctx.harness_error(format!("{} {}", loc, msg));
+                                } else {
+                                    ctx.violation(&format!("C14|panic|python-layer|{}", short_loc(&loc)), json!({"case": case(*x, i, m), "message": msg}));
+                                }
+                                return;
+                            }
                         }
                     }
                 }
